@@ -296,7 +296,7 @@ class OptionManager():
                                     or isinstance(v, int):
                 v2 = [v]
             elif hasattr(v, "__iter__"):
-                v2 = v
+                v2 = list(v)
             else:
                 errmsg = "Expected an iterable, a float,"\
                          + f" an int or a string, got {type(v)}."
